@@ -496,7 +496,7 @@ func TestPropCacheAfterBoundaryReorg(t *testing.T) {
 					}
 				}
 			}
-			store(8192 + rapid.IntRange(0, 3).Draw(rt, "past"))
+			store(8191 + rapid.IntRange(0, 3).Draw(rt, "past")) // head number 8191 (exactly the last block of window 0) .. 8194
 			for i := 0; i < rapid.IntRange(1, 3).Draw(rt, "warm"); i++ {
 				m.query()
 			}
@@ -525,7 +525,7 @@ func TestPropCacheAfterBoundaryReorg(t *testing.T) {
 			if rapid.Bool().Draw(rt, "queryInBetween") {
 				m.query()
 			}
-			store(8192 + rapid.IntRange(0, 3).Draw(rt, "past2"))
+			store(8191 + rapid.IntRange(0, 3).Draw(rt, "past2"))
 			c.NonTrivial("boundary-reorg-with-warm-cache")
 			for i := 0; i < rapid.IntRange(2, 5).Draw(rt, "nq"); i++ {
 				m.query()
